@@ -1426,6 +1426,9 @@ func (fr *frame) execStmt(p *Path, s ast.Stmt) []*Path {
 		return fr.execAssign(p, s)
 	case *ast.DeclStmt:
 		gd, ok := s.Decl.(*ast.GenDecl)
+		if ok && (gd.Tok == token.CONST || gd.Tok == token.TYPE) {
+			return []*Path{p} // constants are resolved through go/types wherever they are used
+		}
 		if !ok || gd.Tok != token.VAR {
 			c.untranslatable(s.Pos(), "declaration")
 			return []*Path{p}
